@@ -8,6 +8,8 @@ it again — a timer survives release or restart only if something persisted can
 (R2) the timers are created correctly in the first place: each scheduling command becomes a heap
 entry for the right tick at now + the requested delay; the in-process idle release aborts the run
 only under its idle marker and timeout test.
+Also (R2) heap discipline: the runner's wake-up list (target of heapq.heappush) is changed only through heapq, so `[0]` is always the
+earliest pending retry delay / waiter timeout; a buried entry is pending work the idle release does not see in time.
 Not decided: that a re-created timer fires at the right instant.
 """
 
@@ -34,6 +36,9 @@ def run(chk) -> None:
     repo = chk.repo
     from ._engine import engine_view
     chk.extra["helpers_inlined"] = engine_view(repo)
+    # pending retry delays and waiter timeouts live only in the wake-up heap: a buried entry is work the idle release does not wait for
+    from ._engine import heap_discipline
+    heap_discipline(chk, "C14.R2")
     m = repo.module(CL)
     methods = repo.methods(RUNNER)
     pc = methods["process_command"]
@@ -159,6 +164,9 @@ def _marker_retraction(chk, repo) -> None:
 
 
 TWINS = [
+    Twin("due wake-up taken with list.pop(0) instead of heapq.heappop", CL_REL, "heapq.heappop(self.scheduled_wakeups)", "self.scheduled_wakeups.pop(0)", "C14.R2"),
+    Twin("first wake-up deleted by index", CL_REL, "            _, _, tick = heapq.heappop(self.scheduled_wakeups)\n", "            _, _, tick = self.scheduled_wakeups[0]\n            del self.scheduled_wakeups[0]\n", "C14.R2"),
+    Twin("benign: heap popped through a local alias", CL_REL, "            _, _, tick = heapq.heappop(self.scheduled_wakeups)\n", "            _heap = self.scheduled_wakeups\n            _, _, tick = heapq.heappop(_heap)\n", None),
     Twin("marker retracted only by add-event ticks", IR_REL, "        if self._marked_idle:\n", "        if self._marked_idle and type(tick).__name__ == \"TickAddEvent\":\n", "C14.R2"),
     Twin("benign: marker flag read into a local", IR_REL, "        if self._marked_idle:\n", "        was_idle = self._marked_idle\n        if was_idle:\n", None),
     Twin("waiter timeout for wrong waiter", CL_REL, "                    step_name=command.step_name, waiter_id=command.waiter_id\n                ),\n                at_time=now + command.timeout,", "                    step_name=command.step_name, waiter_id=\"\"\n                ),\n                at_time=now + command.timeout,", "C14.R2"),
